@@ -67,7 +67,10 @@ def discharge(ob, timeout_ms=20000, seed=0, both=False):
         r = s.check()
         dt = time.time() - t0
         if r == z3.sat:
-            return {'status': 'proved', 'backend': 'z3', 'time': dt, 'detail': 'cover sat'}
+            out = {'status': 'proved', 'backend': 'z3', 'time': dt, 'detail': 'cover sat'}
+            if ob.kind == 'xcheck':
+                out['model'] = small_model(ob, s)
+            return out
         if r == z3.unsat:
             return {'status': 'vacuous', 'backend': 'z3', 'time': dt}
         s0 = _solver(timeout_ms, seed)
@@ -223,6 +226,8 @@ def model_value(model, v, heap, memo=None):
             r = {'__dict__': [(model_value(model, getattr(k, 'sym', k), heap, memo), model_value(model, x, heap, memo)) for k, x in o.items.items()]}
         elif isinstance(o, MObj):
             r = {'__map__': map_value(model, o)}
+        elif hasattr(o, 'ext_model'):
+            r = o.ext_model(lambda x: model_value(model, x, heap, memo))
         elif isinstance(o, Obj):
             r = {'__obj__': o.model.name if o.model is not None else ((o.cls.__module__ + ':' + o.cls.__qualname__) if o.cls is not None else None), 'fields': {}}
             memo[v.oid] = r
@@ -240,7 +245,11 @@ def model_value(model, v, heap, memo=None):
 
 
 def eval_term(model, t, kind):
-    if kind == 'int' or (isinstance(kind, tuple) and kind[0] == 'opq'):
+    if isinstance(kind, tuple) and kind[0] == 'opq':
+        r = model.eval(t, model_completion=True)
+        # an opaque object identity: rebuilt natively as a unique (truthy, hashable) token per id
+        return {'__opq__': [str(kind[1]), r.as_long() if z3.is_int_value(r) else 0]}
+    if kind == 'int':
         r = model.eval(t, model_completion=True)
         return r.as_long() if z3.is_int_value(r) else 0
     if kind == 'bool':
